@@ -306,6 +306,18 @@ func checkC08(rd *RunData) []Violation {
 			}
 		}
 	}
+	if !ok && where == "" {
+		// key 0 left the cache between the hits and the final snapshot: in the loading families the
+		// epilogue's Set can be refused by the policy and the first Get loads the key with the
+		// loader's TTL, which runs out while the cache goes idle (slow listener). Not a statement
+		// about the read buffer
+		for _, l := range rd.Loader {
+			if l.Key == 0 && l.TTL > 0 && l.Start > rd.SnapAt["before"] {
+				probe("c08.epilogue-key-expired")
+				return vs
+			}
+		}
+	}
 	if !ok {
 		vs = append(vs, Violation{"C08/hits-without-effect", fmt.Sprintf("%d hits on key 0 were delivered to the policy (stripe heads advanced by %d) but the key's standing did not improve: it is at %q", hits, advanced, where)})
 	}
